@@ -2,6 +2,7 @@
 # run every claimed check (quick tier by default) on the current tree and validate MANIFEST + evidence
 cd "$(dirname "$0")/.."
 tier=${1:-quick}
+mkdir -p .work
 rc=0
 for p in $(python3 -c "import json; print(' '.join(c['property_id'] for c in json.load(open('MANIFEST.json'))['checks']))"); do
   start=$(date +%s)
